@@ -194,6 +194,41 @@ impl Probe for ReadBackProbe {
                     Some(c) => format!("C04:{}:{}", base, c),
                     None => format!("C04:{}", base),
                 };
+                // the diff against the current winners is complete: every tracked object with an explicit identifier
+                // that the submitted document does not contain now has a deletion as its winner (the deletion is
+                // recorded on top of the winner, so it outranks every other leaf)
+                if class.is_none() {
+                    let mut ids = vec![];
+                    fn explicit_ids(v: &Value, out: &mut Vec<String>) {
+                        match v {
+                            Value::Object(o) => {
+                                if let Some(i) = o.get("_id").and_then(|x| x.as_str()) {
+                                    out.push(i.to_string());
+                                }
+                                for (k, val) in o {
+                                    if k.ends_with(FLAT) {
+                                        explicit_ids(val, out);
+                                    }
+                                }
+                            }
+                            Value::Array(a) => a.iter().for_each(|e| explicit_ids(e, out)),
+                            _ => {}
+                        }
+                    }
+                    explicit_ids(&doc, &mut ids);
+                    for uuid in m.get_all_objects() {
+                        let generated = uuid.len() == 64 && uuid.bytes().all(|b| b.is_ascii_hexdigit());
+                        if uuid.starts_with('^') || uuid == "\u{221A}" || generated || ids.contains(&uuid) {
+                            continue;
+                        }
+                        cx.count("absent_objects_deleted");
+                        let wnr = m.get_winner(&uuid).unwrap_or_default();
+                        if !wnr.contains("-d_") {
+                            cx.violation("C04", "C04:object-absent-from-the-submitted-document-is-not-deleted", sc, &h, json!({"replica": r, "uuid": uuid, "winner": wnr, "input": doc}));
+                            break;
+                        }
+                    }
+                }
                 if !array_conflict {
                     cx.count("exact_readback");
                     if !got.get("ok").is_some_and(|g| same_doc(&want, g)) {
@@ -474,6 +509,10 @@ pub fn shape_sweep(rep: &mut Report, thorough: bool) {
         docs.push(json!({"a": v, "f♭": [{"_id": "e", "p": 0}]}));
     }
     // the key "#" (constants::HASH_FIELD) in tracked and untracked positions, with short-hex, long and non-string values
+    // the empty string is an identifier like any other
+    docs.push(json!({"f♭": [{"_id": "", "v": 1}, {"_id": "c", "v": 3}]}));
+    docs.push(json!({"f♭": [{"_id": "", "v": 1}, {"v": 2}, {"_id": "c", "v": 3}]}));
+    docs.push(json!({"f♭": {"_id": "", "v": 1}}));
     // id-less objects under the same flattened key below DIFFERENT owners (the generated identifier depends on the path)
     docs.push(json!({"f♭": [{"_id": "a", "pos♭": {"k": 1}}, {"_id": "b", "pos♭": {"k": 2}}]}));
     docs.push(json!({"f♭": [{"_id": "a", "tags♭": [{"k": 1}]}, {"_id": "b", "tags♭": [{"k": 2}]}]}));
